@@ -145,11 +145,17 @@ def tlc_programs(ctx, exhaustive_cfg, sim_cfg=None, sim_num=0, sim_depth=14):
     """returns list of 'done' states of Script.tla (dicts) from an exhaustive run plus simulation"""
     import json
 
-    res = core.run_tlc("Script", exhaustive_cfg, timeout=3000)
-    ctx.tlc(res, exhaustive_cfg)
-    if not res.ok:
-        raise core.MachineryError(f"TLC reports {res.violated} on {exhaustive_cfg}:\n{res.out[-2000:]}")
-    states = [_norm(json.loads(pr[1])) for pr in res.printed if pr and pr[0] == "CASE"]
+    states = []
+    seen_ex = set()
+    for cfg in ([exhaustive_cfg] if isinstance(exhaustive_cfg, str) else list(exhaustive_cfg)):
+        res = core.run_tlc("Script", cfg, timeout=3000)
+        ctx.tlc(res, cfg)
+        if not res.ok:
+            raise core.MachineryError(f"TLC reports {res.violated} on {cfg}:\n{res.out[-2000:]}")
+        for pr in res.printed:
+            if pr and pr[0] == "CASE" and pr[1] not in seen_ex:
+                seen_ex.add(pr[1])
+                states.append(_norm(json.loads(pr[1])))
     if sim_cfg and sim_num:
         d = core.scratch_sub("sim")
         per = max(1, sim_num // core.NCPU)
